@@ -390,4 +390,122 @@ theorem validateNew_out (X : SchemaX) (o : VOpts) (cx : Cx) (sibs : List DNode) 
   · cases h
   · exact h
 
+
+/-! ## exactness of the auto-deletion step and of `implNodes` (C07: `autodel_exact`, `implicit_exact`) -/
+
+theorem delEvents_spec (X : SchemaX) (cx : Cx) (np : Bool) (before : List DNode) (v : DNode) :
+    ∀ e ∈ delEvents X cx np before v, e.op = .delete ∧ (e.node = v ∨ (isNpContD X.base v = true ∧ e.node ∈ v.kids)) := by
+  intro e he
+  unfold delEvents at he
+  dsimp only at he
+  split at he
+  · rename_i hc
+    simp only [Bool.and_eq_true] at hc
+    obtain ⟨⟨k, i⟩, _, hki⟩ := List.mem_map.1 he
+    subst hki
+    refine ⟨rfl, Or.inr ⟨hc.2, ?_⟩⟩
+    rename_i hmem
+    exact (List.mem_zipIdx_iff_getElem?.1 hmem |> fun h => List.mem_of_getElem? h)
+  · simp only [List.mem_singleton] at he
+    subst he
+    exact ⟨rfl, Or.inl rfl⟩
+
+/-- every event of a sequential deletion is the deletion of a victim, a non-presence container being recorded through its children -/
+theorem delSeq_evs (X : SchemaX) (cx : Cx) (np : Bool) (victim : DNode → Bool) : ∀ (rest kept : List DNode),
+    ∀ e ∈ (delSeq X cx np victim kept rest).2, e.op = .delete ∧
+      ∃ v ∈ rest, victim v = true ∧ (e.node = v ∨ (isNpContD X.base v = true ∧ e.node ∈ v.kids)) := by
+  intro rest
+  induction rest with
+  | nil => intro kept e he; simp [delSeq] at he
+  | cons n ns ih =>
+    intro kept e he
+    unfold delSeq at he
+    split at he
+    · rename_i hv
+      simp only [List.mem_append] at he
+      rcases he with he | he
+      · obtain ⟨h1, h2⟩ := delEvents_spec X cx np kept n e he
+        exact ⟨h1, n, List.mem_cons_self .., hv, h2⟩
+      · obtain ⟨h1, v, hv', h2⟩ := ih kept e he
+        exact ⟨h1, v, List.mem_cons_of_mem _ hv', h2⟩
+    · obtain ⟨h1, v, hv', h2⟩ := ih _ e he
+      exact ⟨h1, v, List.mem_cons_of_mem _ hv', h2⟩
+
+/-- **auto-deletion of superseded defaults**: when the schema node of the new node has an explicit instance, exactly its
+default-flagged instances go — from the siblings in front, from the ones behind, and the node itself if it is one — and every
+recorded change is the deletion of one of them (a non-presence container through its children); nothing else is touched -/
+theorem autodelStep_found (X : SchemaX) (cx : Cx) (done tl : List DNode) (node : DNode)
+    (hf : ((done ++ node :: tl).any fun x => x.sid == node.sid && !x.flags.dflt) = true) :
+    let r := autodelStep X cx done node tl
+    let victim := fun (x : DNode) => x.sid == node.sid && x.flags.dflt
+    r.1 = done.filter (fun x => !victim x) ∧ r.2.1 = victim node ∧ r.2.2.1 = tl.filter (fun x => !victim x) ∧
+    ∀ e ∈ r.2.2.2, e.op = .delete ∧ ∃ v ∈ done ++ node :: tl, victim v = true ∧
+      (e.node = v ∨ (isNpContD X.base v = true ∧ e.node ∈ v.kids)) := by
+  unfold autodelStep
+  dsimp only
+  rw [if_pos hf]
+  simp only [delSeq_fst, List.nil_append, List.drop_left']
+  refine ⟨trivial, trivial, trivial, ?_⟩
+  intro e he
+  simp only [List.mem_append] at he
+  rcases he with (he | he) | he
+  · obtain ⟨h1, v, hv, h2⟩ := delSeq_evs X cx false _ done [] e he
+    exact ⟨h1, v, by simp [hv], h2⟩
+  · obtain ⟨h1, v, hv, h2⟩ := delSeq_evs X cx false _ [node] _ e he
+    simp only [List.mem_singleton] at hv
+    exact ⟨h1, v, by simp [hv], h2⟩
+  · obtain ⟨h1, v, hv, h2⟩ := delSeq_evs X cx false _ tl _ e he
+    exact ⟨h1, v, by simp [hv], h2⟩
+
+/-- without an explicit instance nothing of a leaf-list is deleted -/
+theorem autodelStep_leaflist_keep (X : SchemaX) (cx : Cx) (done tl : List DNode) (node : DNode)
+    (hf : ((done ++ node :: tl).any fun x => x.sid == node.sid && !x.flags.dflt) = false)
+    (hll : X.base.isKind node.sid .leaflist = true) : autodelStep X cx done node tl = (done, false, tl, []) := by
+  unfold autodelStep
+  dsimp only
+  rw [if_neg (by simp [hf]), if_pos hll]
+
+theorem implNode_mono (S : Schema) (o : VOpts) (cx : Cx) (k : STree) (sibs : List DNode) : ∀ x ∈ sibs, x ∈ (implNode S o cx k sibs).1 := by
+  intro x hx
+  unfold implNode
+  dsimp only
+  split
+  · exact hx
+  · cases hkind : k.info.kind with
+    | container =>
+      dsimp only
+      split
+      · exact hx
+      · simp only [addImplicit_fst, mem_insertNode]; exact Or.inr hx
+    | leaf =>
+      dsimp only
+      split
+      · simp only [addImplicit_fst, mem_insertNode]; exact Or.inr hx
+      · exact hx
+    | leaflist =>
+      dsimp only
+      have : ∀ (ds : List Bytes) (acc : List DNode × Out), x ∈ acc.1 → x ∈ (implLeafList S cx k.sid ds acc).1 := by
+        intro ds
+        induction ds with
+        | nil => intro acc h; simpa [implLeafList] using h
+        | cons d ds ih =>
+          intro acc h
+          unfold implLeafList
+          apply ih
+          simp only [addImplicit_fst, mem_insertNode]; exact Or.inr h
+      exact this _ _ hx
+    | list => exact hx
+    | choice => exact hx
+    | case => exact hx
+
+theorem implNodes_mono (S : Schema) (o : VOpts) (cx : Cx) : ∀ (ks : List STree) (sibs : List DNode), ∀ x ∈ sibs, x ∈ (implNodes S o cx ks sibs).1 := by
+  intro ks
+  induction ks with
+  | nil => intro sibs x hx; simpa [implNodes] using hx
+  | cons k ks ih =>
+    intro sibs x hx
+    unfold implNodes
+    dsimp only
+    exact ih _ x (implNode_mono S o cx k sibs x hx)
+
 end LyModel.Valid
